@@ -23,7 +23,7 @@ func init() {
 		ID:          "C15",
 		Rule:        "cases: for each of the five key types, payloads of 1 B..4 KiB (binary and JSON) signed with the library's signers via SignPayload and SignModel; oracle by construction: verify under the matching JWK must succeed and return the payload; under every other key (same and other types, and the mirror point (x, p-y) tried before or after the matching key) must fail; a third of the EC keys are drawn until a coordinate has a leading zero byte; every single-bit change of the decoded header, payload and signature (all bits for one JWS per key type, strided otherwise; segments re-encoded) must fail; wrong-length signatures, unsupported kty/crv and malformed compact splits must error. Signing is repeated until signatures with a leading zero byte in r or s were seen for every EC curve. distinct = (key type, payload class, tampering class, segment, bit-position bucket).",
 		Assumptions: []string{"forgery resistance of Ed25519 / ECDSA (a random bit flip does not yield a valid signature)", "harness base64url codec"},
-		Require:     []string{"verify-ok", "signer-reuse", "other-key", "bit-flip-header", "bit-flip-payload", "bit-flip-signature", "malformed", "leading-zero-rs", "mirror-key", "leading-zero-coordinate-keys", "header-trailing-data", "curve-renamed-key", "concurrent-verifications"},
+		Require:     []string{"verify-ok", "signer-reuse", "other-key", "bit-flip-header", "bit-flip-payload", "bit-flip-signature", "malformed", "leading-zero-rs", "mirror-key", "leading-zero-coordinate-keys", "header-trailing-data", "curve-renamed-key", "concurrent-verifications", "serialization-option-probes"},
 		Workers:     func(string) int { return 15 },
 		Run:         runC15,
 	})
@@ -61,6 +61,9 @@ func runC15(r *fw.Runner) {
 		_ = ti
 	}
 	r.Case("malformed", func(c *fw.Case) { c15Malformed(c) })
+	for b := 0; b < r.N(2, 20); b++ {
+		r.Case("serialization-options", func(c *fw.Case) { c15Options(c) })
+	}
 	for _, typ := range gen.AllKeyTypes {
 		typ := typ
 		r.Case("verified-from-many-goroutines-"+typ, func(c *fw.Case) { c15Concurrent(c, typ) })
@@ -496,5 +499,83 @@ func c15Concurrent(c *fw.Case, typ string) {
 	if len(failures) > 0 {
 		c.Failf("valid-jws-refused-under-concurrent-verification", map[string]interface{}{"key_type": typ, "failures": len(failures), "first": failures[0], "goroutines": G},
 			"%d of %d verifications of valid %s JWS failed when %d goroutines verified at once: %s", len(failures), G*rounds, typ, G, failures[0])
+	}
+}
+
+// c15Options: the other public routes to a compact JWS - NewJWS with the b64 header absent / true / false, attached and detached
+// serialization, verification with and without the detached-payload option. What verifies is always the payload the verifier was
+// given (the detached one when the option is used), and the library's own serializations verify.
+func c15Options(c *fw.Case) {
+	r := c.Rng
+	for _, typ := range gen.AllKeyTypes {
+		k := gen.NewKey(r, typ)
+		jwk := toLibJWK(k.JWK())
+		payload := r.Bytes(r.Range(1, 200))
+		if r.Bool() {
+			payload = []byte("dotted.payload.with-base64url_chars" + fmt.Sprint(r.Intn(1000)))
+		}
+		other := append(append([]byte{}, payload...), 'x')
+		if r.Bool() {
+			other = append([]byte{}, payload...)
+			other[r.Intn(len(other))] ^= 1 << uint(r.Intn(8))
+		}
+		for _, b64 := range []string{"absent", "true", "false"} {
+			signer := signerFor(k, "")
+			hdr := jws.Headers{}
+			for hk, hv := range signer.Headers() {
+				hdr[hk] = hv
+			}
+			if b64 != "absent" {
+				hdr[jws.HeaderB64Payload] = b64 == "true"
+			}
+			obj, err := jwsutil.NewJWS(hdr, nil, payload, signer)
+			if err != nil {
+				c.Failf("new-jws-error", map[string]interface{}{"key_type": typ, "b64": b64, "err": err.Error()}, "NewJWS failed: %v", err)
+				continue
+			}
+			attached, err1 := obj.SerializeCompact(false)
+			detached, err2 := obj.SerializeCompact(true)
+			if err1 != nil || err2 != nil {
+				c.Failf("serialize-error", map[string]interface{}{"key_type": typ, "b64": b64}, "SerializeCompact failed: %v %v", err1, err2)
+				continue
+			}
+			type probe struct {
+				name string
+				jws  string
+				opt  []byte // nil: no option
+				want bool
+			}
+			for _, p := range []probe{
+				{"attached", attached, nil, true},
+				{"attached+option-same-payload", attached, payload, true},
+				{"attached+option-other-payload", attached, other, false},
+				{"detached+option-same-payload", detached, payload, true},
+				{"detached+option-other-payload", detached, other, false},
+				{"detached-without-option", detached, nil, false},
+			} {
+				c.Count("serialization-option-probes", 1)
+				c.Evals(1)
+				c.Sig("options", typ, b64, p.name)
+				var opts []jwsutil.ParseOpt
+				if p.opt != nil {
+					opts = append(opts, jwsutil.WithJWSDetachedPayload(p.opt))
+				}
+				got, err := jwsutil.VerifyJWS(p.jws, jwk, opts...)
+				w := map[string]interface{}{"key_type": typ, "b64_header": b64, "probe": p.name, "jws": p.jws, "payload_b64": oracle.B64(payload), "option_payload_b64": oracle.B64(p.opt), "err": fmt.Sprint(err)}
+				if (err == nil) != p.want {
+					c.Failf("serialization-option:"+p.name, w, "%s (b64 %s, %s): verification %v, expected success=%v", p.name, b64, typ, err, p.want)
+					continue
+				}
+				if err == nil {
+					wantPayload := payload
+					if p.opt != nil {
+						wantPayload = p.opt
+					}
+					if !bytes.Equal(got.Payload, wantPayload) {
+						c.Failf("serialization-option-payload:"+p.name, w, "%s: verified JWS reports another payload than the one verified", p.name)
+					}
+				}
+			}
+		}
 	}
 }
